@@ -48,6 +48,8 @@ def rec_fit(args):
     x0i, y0i = (cx, cy) if fixc else (cx + 0.6, cy - 0.5)
     epsi = eps if fixe else min(0.85, max(0.05, eps + 0.08))
     pai = pa if fixp else pa + 0.15
+    if c.get('start') == 'perp':
+        pai = pa + math.pi / 2 + 0.1
     linear = c['mode'] == 'linear_growth'
     step = 2.0 if linear else 0.15
     minsma, maxsma = 4.0, 26.0
@@ -71,7 +73,11 @@ def rec_fit(args):
         rec['tx0'], rec['ty0'], rec['teps'], rec['tpa'] = fk(cx, S), fk(cy, S), fk(eps, A), fk(pa % math.pi, A)
         rec['intens_rel'] = [fk(i.intens / profile_at(c['law'], i.sma), A) if i.sma > 0 else A for i in iso]
         # well sampled: converged iterative fit, sma between 6 and 22 px, and the true geometry used for intensity only when not fixed elsewhere
-        rec['well'] = [bool(i.stop_code == 0 and 6.0 <= i.sma <= (12.0 if c['mode'] == 'maxrit' else 22.0) and i.valid and c['fix'] == 'none' and c['eps'] <= 50) for i in iso]
+        # (with bilinear sampling and a position angle away from 0 every such isophote is demanded to be right whatever its stop code:
+        # on a noise-free ellipse the fit has no excuse; at PA = 0 - see the known finding - and for the coarser modes only converged ones)
+        strict = c['mode'] in ('bilinear', 'linear_growth') and c['pa'] != 0
+        rec['well'] = [bool((i.stop_code == 0 or strict) and 6.0 <= i.sma <= (12.0 if c['mode'] == 'maxrit' else 22.0) and i.valid and c['fix'] == 'none' and c['eps'] <= 50) for i in iso]
+        rec['stops'] = [int(i.stop_code) for i in iso if 6.0 <= i.sma <= 22.0]
         rec['model_checked'] = False; rec['model_maxrel'] = 0; rec['model_tol'] = 500
         if c['fix'] == 'none' and (idx % 3 == 0 or c.get('frame') != 'square') and n > 5 and c['mode'] != 'maxrit' and c['eps'] <= 50:
             model = build_ellipse_model(img.shape, iso)
@@ -95,7 +101,10 @@ def rec_polar(seed):
     from photutils.isophote import EllipseGeometry
     rng = random.Random(seed)
     g = EllipseGeometry(rng.uniform(20, 40), rng.uniform(20, 40), rng.uniform(3, 15), rng.uniform(0.0, 0.85), rng.uniform(-4, 4))
-    pts = [(rng.uniform(0, 60), rng.uniform(0, 60)) for _ in range(40)] + [(g.x0, g.y0), (g.x0 + 3.0, g.y0), (g.x0, g.y0 - 2.0)]
+    if seed % 2:      # centre on a pixel: whole rows / columns of an index grid lie exactly on the axes through the centre
+        g = EllipseGeometry(float(rng.randint(20, 40)), float(rng.randint(20, 40)), rng.uniform(3, 15), rng.uniform(0.0, 0.85), rng.choice([0.0, rng.uniform(-4, 4)]))
+    pts = [(rng.uniform(0, 60), rng.uniform(0, 60)) for _ in range(40)] + [(g.x0, g.y0), (g.x0 + 3.0, g.y0), (g.x0, g.y0 - 2.0), (g.x0 - 3.0, g.y0), (g.x0 - 1.0, g.y0),
+                                                                             (g.x0, g.y0 + 2.0), (g.x0 - 2.0, g.y0 - 2.0), (g.x0 - 2.0, g.y0 + 2.0)]
     xs = np.array([p[0] for p in pts]); ys = np.array([p[1] for p in pts])
     ra, pa = g.to_polar(xs, ys)
     ra, pa = np.ravel(ra), np.ravel(pa)
@@ -110,15 +119,19 @@ def rec_polar(seed):
 
 def run(ctx):
     q = ctx.quick
-    ctx.rule = ('TLC-enumerated lattice eps {0.05,0.2,0.5,0.8} x 8 position angles x {Gaussian, exponential, Sersic} x fix flags x integration / growth '
-                'modes x 2 centres x {square, wide, tall} frames, a seeded sample of which is fitted with fit_image from a perturbed start; non-trivial = eps >= 0.2 or a fix flag set')
+    ctx.rule = ('TLC-enumerated lattice eps {0.05,0.1,0.2,0.5,0.8} x 8 position angles x {Gaussian, exponential, Sersic} x fix flags x integration / growth '
+                'modes x 2 centres x {square, wide, tall} frames x first guess {near, perpendicular PA (round galaxies)}, a seeded stratified sample of which is fitted with fit_image from a perturbed start; non-trivial = eps >= 0.2 or a fix flag set')
     ctx.mc('IsoGrowth', core.make_cfg(ctx, 'MC_IsoGrowth.cfg', MaxLen=(7 if q else 9)), timeout=1800)
     ctx.mc('IsoGrowth', 'MC_IsoGrowth_lin.cfg', timeout=600)
     g = ctx.tlc('IsoParams', 'GEN_IsoParams.cfg', part='GEN:IsoParams', workers=1)
     lat = [r for r in g.records if r.get('_tag') == 'GEN']
     rng = random.Random(ctx.seed)
     rng.shuffle(lat)
-    lat = lat[: (96 if q else 1200)]
+    # stratified: a quarter of the sample starts with the position angle perpendicular to the truth
+    perp = [c for c in lat if c.get('start') == 'perp']
+    near = [c for c in lat if c.get('start') != 'perp']
+    nq = 96 if q else 1200
+    lat = near[: nq - nq // 4] + perp[: nq // 4]
     recs = core.pmap(rec_fit, list(enumerate(lat)), chunksize=1)
     recs += [rec_polar(ctx.seed * 100 + k) for k in range(40 if q else 400)]
     ver = core.validate_batch(ctx, 'Trace_Iso', recs, 'Trace:Iso')
